@@ -30,11 +30,19 @@ reads slots through `Spec/FatSpec`'s array reader; it is NOT proved equal to the
 is stated directly over the `DirSim` readers; the two are related by the correspondence runs (the oracle compares
 `decodeImage` of every image with the model's tree) and by the example below.
 
-Mutating half (second part of this file): `create_file` with last directory = the fixed root, at every path depth,
-with the image invariant `ImgTreeW` RE-ESTABLISHED (`create_file_img_partial`), its composition with the specification
-and histories of read-only calls and such creates (`history_refines_spec_img_partial`).  Not covered: `create_dir`,
-`remove`, `rename` at byte level as whole tree steps, a last directory below the root, directory growth, FAT32
-roots, `update_accessed_date` on, faults — what is missing for each is said at the theorems.
+Mutating half (second part of this file), every call with the image invariant `ImgTreeW` RE-ESTABLISHED and composed
+with the specification (`…_refines_spec_img_partial`), all with LAST DIRECTORY = THE FIXED ROOT (FAT12/16):
+`create_file` and `create_dir` and `remove` of a file on paths of any depth that lead back to the root
+(`create_file_img_partial`, `create_dir_img_partial` — the cluster map is extended, `ClAgree` —,
+`remove_file_img_partial`), `rename` of a file inside the root under single names (`rename_file_img_partial`);
+histories of these and the read-only calls through the root handle (`history_refines_spec_img_partial`; non-vacuity:
+a three-call history on `Ex4`).  The FAT-level side conditions (`FreedApart`, `DirRes.apart`) follow from `FatWf` of
+the decoded FAT and facts about chain heads (`fat_side_conditions_of_fatWf`, over agent-fat's chain lemmas).
+Groundwork for a last directory BELOW the root: `create_file_subdir_slots_partial` (one directory, slot level:
+`check_for_existence`, `find_free_entries`, `write_entry` behind the two dot slots) — not composed into a tree
+step (the write re-stamps the directory's record in its parent).  Not covered: `remove` of a directory, `rename` of
+a directory / between directories / on deeper paths, directory growth, FAT32 roots, `update_accessed_date` on,
+faults, a full volume — what is missing for each is said at the theorems.
 -/
 namespace FatVerif
 namespace C01img
@@ -975,6 +983,233 @@ example : ∃ (s : DirStream) (d' : Dev),
         rw [fat2]; decide)
     (by rw [show sfnStamp dev.fs dev.clock (some 4) = stampDir from rfl, model_mkdir.1]; simp)
   exact o2 [] model_mkdir.1
+
+end Ex4
+
+/-! ### non-vacuity: `create_file("New.txt")` through the handle of `sub` (slot level, `create_file_subdir_slots_partial`) -/
+
+namespace Ex4
+open C01tree.Ex SlotTreeImg FatVerif.FileSim FatVerif.Fat
+
+theorem isEnd_read (img : Img) (off : Nat) (h : img.getByte off = 0) : Lfn.isEnd (img.read off 32) = true := by
+  unfold Lfn.isEnd Lfn.byte
+  rw [Img.read_getD _ _ _ _ (by omega)]
+  simp only [Nat.add_zero, beq_iff_eq]
+  exact h
+
+theorem ex_s1 : (chainSlots dev.fs dev.img [2, 3]).take 5 = dotSlot :: dotDotSlot :: subSlots := by decide +kernel
+theorem ex_s1z : ∀ j, j < 32 → 5 ≤ j → dev.img.getByte (chainSrc dev.fs [2, 3] (32 * j)) = 0 := by decide +kernel
+
+/-- the chain of `sub` at slot level: `.`, `..`, the three slots of `Hello World.txt`, 27 end markers -/
+theorem subSlots4 : SubSlots dev [2, 3] dotSlot dotDotSlot subSlots ((chainSlots dev.fs dev.img [2, 3]).drop 5) := by
+  have hsrc : chainSlots dev.fs dev.img [2, 3] = srcSlots dev.img (chainSrc dev.fs [2, 3]) 32 :=
+    (srcSlots_chain dev.fs dev.img (by decide) (by decide) [2, 3]).symm
+  refine ⟨?_, ?_, by decide, by decide, by decide, by decide⟩
+  · have := (List.take_append_drop 5 (chainSlots dev.fs dev.img [2, 3])).symm
+    rw [ex_s1] at this
+    exact this
+  · intro x hx
+    rw [hsrc] at hx
+    obtain ⟨i, hi, rfl⟩ := List.mem_iff_getElem.1 hx
+    rw [List.length_drop, srcSlots_length] at hi
+    rw [List.getElem_drop]
+    unfold srcSlots
+    rw [List.getElem_map, List.getElem_range]
+    exact isEnd_read _ _ (ex_s1z (5 + i) (by omega) (by omega))
+
+def eSubEntry : DirEntry := toDirEntryS (rootSrc fs) eSub
+
+theorem eSub_isDir : eSubEntry.isDir = true := by decide +kernel
+theorem eSub_name : eSubEntry.editor.data.name.length = 11 := by decide +kernel
+theorem eSub_pos : eSubEntry.editor.pos = 1056 := by decide +kernel
+
+theorem model_check_sub :
+    checkForExistenceL up0 subSlots "New.txt" (some false) 70000 =
+      .ok (.alias [78, 69, 87, 32, 32, 32, 32, 32, 84, 88, 84]) := by decide +kernel
+
+/-- **`create_file("New.txt")` through the handle of `sub`** (cluster chain `[2, 3]`, reached through its record in the
+    root at offset 1056): the program succeeds and the chain then holds the dot slots, the model's slot list after
+    `write_entry`, and end markers -/
+example : ∃ (h : FileH) (d' : Dev) (tail' : List (List Nat)),
+    run (createFile env 1 (.file (FileH.new (some 2) (some eSubEntry.editor))) "New.txt") dev = (.ok h, d') ∧
+    VolStep dev d' ∧
+    SubSlots d' [2, 3] dotSlot dotDotSlot
+      (DirSlots.writeEntry subSlots (Names.encodeUtf16 "New.txt".toList)
+        (sfnWith [78, 69, 87, 32, 32, 32, 32, 32, 84, 88, 84] (0 :: sfnStamp dev.fs dev.clock none))) tail' := by
+  have T := create_file_subdir_slots_partial dotSafe env rfl 2 eSubEntry.editor [2, 3]
+    (subReadable_entry eSubEntry eSub_isDir).dir wf (by decide) eSub_name (by rw [eSub_pos]; decide)
+    (by rw [eSub_pos]; decide) (by rw [eSub_pos]; decide) rfl dotSlot dotDotSlot subSlots _ subSlots4 "New.txt" "New.txt"
+    (by decide +kernel) (by decide) (by decide +kernel) 0
+  rw [model_check_sub] at T
+  simp only at T
+  have hval : Names.validateLongName "New.txt" = .ok () := by decide +kernel
+  rw [hval] at T
+  obtain ⟨h, d', tail', hr, hs, hS, _⟩ := T
+  exact ⟨h, d', tail', hr, hs, hS⟩
+
+end Ex4
+
+/-! ### non-vacuity of the history theorem: three calls on the image of `Ex4` -/
+
+namespace Ex4
+open C01tree.Ex SlotTreeImg FatVerif.FileSim FatVerif.Fat
+
+theorem parts_new : pathParts "New File.txt" = ([], "New File.txt") := by decide +kernel
+theorem walk_new : walkDirsS up0 root4 [] (pathParts "New File.txt").1 = .ok [] := by decide +kernel
+theorem model_create2 : (createS up0 70000 root4 [] "New File.txt" false stampNew).out = .ok [] := by decide +kernel
+
+theorem listing_root4 : listing rootSlots = [eSub] := by decide +kernel
+theorem listing_sub4 : listing subSlots = [eHello] := by decide +kernel
+
+/-- "New File.txt" answers to no entry of the tree (so trivially to no alias only) -/
+theorem qall_new : QAll up0 root4 "New File.txt" := by
+  unfold QAll
+  rw [root4_eq, all_dir]
+  refine ⟨?_, ?_⟩
+  · unfold QHit
+    rw [listing_root4]
+    decide +kernel
+  · intro x hx
+    simp only [List.mem_singleton] at hx
+    rw [hx]
+    show Node.All _ sub0
+    rw [sub0_eq, all_dir]
+    refine ⟨?_, ?_⟩
+    · unfold QHit
+      rw [listing_sub4]
+      decide +kernel
+    · intro y hy
+      simp only [List.mem_singleton] at hy
+      rw [hy]
+      trivial
+
+def aliasNew : List Nat := [78, 69, 87, 70, 73, 76, 126, 49, 84, 88, 84]
+def unitsNew : List Nat := Names.encodeUtf16 "New File.txt".toList
+def sfnNew : List Nat := sfnWith aliasNew (newBody false stampNew)
+def eNew : LfnEntry := newEntry rootSlots unitsNew sfnNew
+def slots1 : List (List Nat) := DirSlots.writeEntry rootSlots unitsNew sfnNew
+def tree1 : Node := .dir slots1 [(eSub, sub0), (eNew, .file [])]
+
+theorem check_new : checkForExistenceL up0 rootSlots "New File.txt" (some false) 70000 = .ok (.alias aliasNew) := by
+  decide +kernel
+
+/-- the tree after the first call, in constructor form -/
+theorem tree1_eq : (createS up0 70000 root4 [] "New File.txt" false stampNew).tree = tree1 := by
+  rw [createS_file_eq, walk_new]
+  show (cfFinal up0 root4 [] (pathParts "New File.txt").2 stampNew).tree = _
+  rw [parts_new]
+  unfold cfFinal
+  rw [root4_eq]
+  simp only [getAtS]
+  have hd : isDotName "New File.txt" = false := by decide
+  simp only [hd, Bool.false_eq_true, if_false]
+  unfold createFinal
+  rw [check_new]
+  have hv : Names.validateLongName "New File.txt" = .ok () := by decide +kernel
+  simp only [hd, Bool.false_eq_true, if_false, hv, done]
+  show addEntry unitsNew sfnNew (freshNode false) (.dir rootSlots [(eSub, sub0)]) = _
+  have hshape : Shape rootSlots := by
+    have h := root4_wf
+    rw [root4_eq] at h
+    exact ((all_dir _ _ _).1 h).1.wf.shape
+  rw [addEntry_dir hshape unitsNew sfnNew (freshNode false) [(eSub, sub0)] (by decide) (by decide) (by decide)
+    (by decide) (by decide +kernel)]
+  rfl
+
+theorem listing_slots1 : listing slots1 = [eSub, eNew] := by decide +kernel
+
+/-- "b.txt" answers to no entry of the tree after the first call -/
+theorem qall_b : QAll up0 tree1 "b.txt" := by
+  unfold QAll tree1
+  rw [all_dir]
+  refine ⟨?_, ?_⟩
+  · unfold QHit
+    rw [listing_slots1]
+    decide +kernel
+  · intro x hx
+    simp only [List.mem_cons, List.not_mem_nil, or_false] at hx
+    rcases hx with rfl | rfl
+    · show Node.All _ sub0
+      rw [sub0_eq, all_dir]
+      refine ⟨?_, ?_⟩
+      · unfold QHit
+        rw [listing_sub4]
+        decide +kernel
+      · intro y hy
+        simp only [List.mem_singleton] at hy
+        rw [hy]
+        trivial
+    · trivial
+
+theorem parts_b : pathParts "b.txt" = ([], "b.txt") := by decide +kernel
+theorem walk_b : walkDirsS up0 tree1 [] (pathParts "b.txt").1 = .ok [] := by decide +kernel
+theorem room_b : DirSlots.findFree slots1 (numParts (Names.encodeUtf16 "b.txt".toList).length + 1) +
+    (numParts (Names.encodeUtf16 "b.txt".toList).length + 1) ≤ 16 := by decide +kernel
+theorem model_create_b : (createS up0 70000 tree1 [] "b.txt" false stampNew).out = .ok [] := by decide +kernel
+
+/-- **a history of three calls at byte level**: `create_file("New File.txt")`, `create_file("b.txt")`, then a listing
+    of the root, through the root handle on the image of `Ex4` — the hypotheses of `history_refines_spec_img_partial`
+    hold (given the string facts `SplitAgree`), in particular the continuation clauses of `HistOk` for WHATEVER device
+    the call before leaves: the room in the root region follows from the geometry, which a `VolStep` keeps; the
+    model's answers are computed on the model's tree; the stamp is the clock's, which does not move -/
+example (hsa : SplitAgree "New File.txt") (hsb : SplitAgree "b.txt") :
+    ∃ (obs : List (Spec.Op × Spec.Obs)) (d' : Dev) (t' : Node) (cl' : List String → Option Nat),
+      ByteRun env 30 up0 dev root4 [.createFile "New File.txt", .createFile "b.txt", .list] obs d' t' ∧
+      ImgTreeW d' up0 t' cl' ∧ TreeWf up0 t' ∧
+      C01tree.specRun (cfgOf Names.upperAscii) (abs root4) obs = .ok (abs t') := by
+  refine history_refines_spec_img_partial Names.upperAscii dotSafe env rfl 30 _ cl dev root4 imgTreeW root4_wf rfl ?_
+  show HistOk up0 30 cl dev root4 [.createFile "New File.txt", .createFile "b.txt", .list]
+  have hcwd : ∀ t : Node, t.isDir = true → CwdOk up0 t [] := by
+    intro t ht
+    obtain ⟨s, c, rfl⟩ := (isDir_iff_dir t).1 ht
+    exact ⟨trivial, s, c, rfl⟩
+  have hroom16 : ∀ d1 : Dev, VolStep dev d1 → ∀ N, RootReadable d1 N → N = 16 := by
+    intro d1 hs N hN
+    have h1 := hN.slots
+    have h2 : (rootSliceOf d1.fs).size = 512 := by rw [rootSliceOf_geomEq hs.geom]; decide
+    omega
+  refine ⟨⟨by decide, ?_, ?_, ?_⟩, ⟨hcwd root4 rfl, hsa, ?_, ?_⟩, ?_⟩
+  · intro p hp
+    rw [walk_new] at hp; cases hp; rfl
+  · intro slots ch ht
+    rw [root4_eq] at ht
+    simp only [Node.dir.injEq] at ht
+    obtain ⟨rfl, _⟩ := ht
+    intro N hN
+    rw [parts_new, hroom16 dev (VolStep.of_sameVol (SameVol.refl dev)) N hN]
+    exact room_new
+  · show (createS up0 70000 root4 [] "New File.txt" false stampNew).out ≠ _
+    rw [model_create2]; simp
+  · intro q hq
+    rw [parts_new] at hq; cases hq
+  · rw [parts_new]; exact qall_new
+  · intro d1 cl1 hs1 hclk1 _ _
+    have ht1 : (modelStep up0 dev root4 (.createFile "New File.txt")).tree = tree1 := tree1_eq
+    rw [ht1]
+    have hstamp : sfnStamp d1.fs d1.clock none = stampNew := by
+      rw [sfnStamp_geom hs1.geom, hclk1]; rfl
+    have hm2 : modelStep up0 d1 tree1 (.createFile "b.txt") = createS up0 70000 tree1 [] "b.txt" false stampNew := by
+      unfold modelStep Call.op stampOf
+      simp only [stepSlot]
+      rw [hstamp]
+    refine ⟨⟨by decide, ?_, ?_, ?_⟩, ⟨hcwd tree1 rfl, hsb, ?_, ?_⟩, ?_⟩
+    · intro p hp
+      rw [walk_b] at hp; cases hp; rfl
+    · intro slots ch ht
+      have : slots = slots1 := by
+        unfold tree1 at ht
+        simp only [Node.dir.injEq] at ht
+        exact ht.1.symm
+      subst this
+      intro N hN
+      rw [parts_b, hroom16 d1 hs1 N hN]
+      exact room_b
+    · rw [hm2, model_create_b]; simp
+    · intro q hq
+      rw [parts_b] at hq; cases hq
+    · rw [parts_b]; exact qall_b
+    · intro d2 cl2 _ _ _ _
+      refine ⟨trivial, hcwd _ (by rw [modelStep_isDir]; rfl), fun _ _ _ _ _ _ => trivial⟩
 
 end Ex4
 
